@@ -11,16 +11,20 @@ S(str) == str   \* readability only
 
 \* unit alphabets (byte sequences)
 UnitsScan == << <<97>>, <<101>>, <<120>>, <<48>>, <<49>>, <<95>>, <<46>>, <<33>>, <<61>>, <<39>>,
-                <<92>>, <<110>>, <<32>>, <<10>>, <<43>>, <<64>>, <<195,169>>, <<226,128,168>>, <<255>>, <<117>> >>
+                <<92>>, <<110>>, <<32>>, <<10>>, <<43>>, <<64>>, <<195,169>>, <<226,128,168>>, <<255>>, <<117>>, <<13>> >>
 \*              a      e       x       0      1      _      .      !      =      '
-\*              \      n       space   LF     +      @      e-acute       U+2028        0xFF   u
+\*              \      n       space   LF     +      @      e-acute       U+2028        0xFF   u   CR
 UnitsOps  == << <<33>>, <<61>>, <<46>>, <<38>>, <<124>>, <<63>>, <<60>>, <<62>>, <<97>>, <<49>>,
-                <<32>>, <<10>>, <<194,160>>, <<64>> >>
-\*              !      =      .      &      |       ?      <      >      a      1   space  LF  NBSP  @
+                <<32>>, <<10>>, <<194,160>>, <<64>>, <<194,133>>, <<40>> >>
+\*              !      =      .      &      |       ?      <      >      a      1   space  LF  NBSP  @  NEL(U+0085)  (
 UnitsNum  == << <<48>>, <<49>>, <<57>>, <<46>>, <<101>>, <<69>>, <<43>>, <<45>>, <<95>>, <<97>>, <<120>> >>
 \*              0      1      9      .      e       E      +      -      _      a      x
 UnitsWord == << <<116>>, <<114>>, <<117>>, <<101>>, <<32>>, <<46>>, <<36>>, <<49>>, <<40>>, <<41>> >>
 \*              t       r       u       e      space   .      $      1      (      )
+\* long literals: ten-digit blocks, so that <= 5 units reach 50 significant digits
+UnitsLong == << <<49,50,51,52,53,54,55,56,57,48>>, <<48,48,48,48,48,48,48,48,48,48>>, <<57,57,57,57,57,57,57,57,57,53>>,
+                <<46>>, <<49>>, <<101,45,51>>, <<95>> >>
+\*              1234567890   0000000000   9999999995   .   1   e-3   _
 NoBytes == <<>>
 Bracket == <<91>>
 Unbracket == <<93>>
